@@ -1299,9 +1299,13 @@ class System:
             # Packages wins
             return
         else:
-            # Else, the last added module wins
+            # Else, the last added module wins: the first one leaves the system, with everything it contains.
+            for ob in self._subtree(first):
+                if isinstance(ob, Module) and ob in self.unprocessed_modules:
+                    self.unprocessed_modules.remove(ob)
             self._remove(first)
-            self.unprocessed_modules.remove(first)
+            if first in self.rootobjects:
+                self.rootobjects.remove(first)
             self._addUnprocessedModule(dup)
 
     def _introspectThing(self, thing: object, parent: CanContainImportsDocumentable, parentMod: _ModuleT) -> None:
